@@ -21,6 +21,10 @@ def classes():
         ("SVDLinear", lambda u: svd.SVDLinear(3, num_householder=2, using_cache=u, identity_init=False), False),
         ("NaiveLinear", lambda u: linear.NaiveLinear(3, orthogonal_initialization=False, using_cache=u), False),
         ("OneByOneConvolution", lambda u: conv.OneByOneConvolution(3, using_cache=u, identity_init=False), True),
+        # constructor options away from their defaults: every cached quantity has to be built with the configured values
+        ("SVDLinear(eps=0.05)", lambda u: svd.SVDLinear(3, num_householder=2, using_cache=u, identity_init=False, eps=0.05), False),
+        ("LULinear(eps=0.05)", lambda u: lu.LULinear(3, using_cache=u, identity_init=False, eps=0.05), False),
+        ("SVDLinear(eps=1e-6, four reflections)", lambda u: svd.SVDLinear(3, num_householder=4, using_cache=u, identity_init=False, eps=1e-6), False),
     ]
 
 
@@ -265,7 +269,7 @@ def histories(tier, seed):
 
 
 def run(tier, seed):
-    ck = Check("C10", tier, seed, areas=["cache"], gen_groups=["LinearCache"])
+    ck = Check("C10", tier, seed, areas=["cache"], gen_groups=["LinearCache", "LinearFamily"])
     ck.rule = ("histories over {train, eval, use_cache(on/off), forward, inverse, forward/inverse+backward, optimiser "
                "step (training mode only), load_state_dict, float()/double()} run in lock-step on the five linear "
                "classes and on the extracted model; non-trivial = the history evaluates the transform at least once "
